@@ -17,6 +17,7 @@ import Biogo.Proofs.Containers
 import Biogo.Proofs.ContFrame
 import Biogo.Proofs.ContAln
 import Biogo.Proofs.ContSepWorld
+import Biogo.Proofs.ContRow
 
 namespace Biogo.Properties.C05
 open Biogo.Alphabet Biogo.Containers Biogo.Go
@@ -370,5 +371,92 @@ example :
     ((w.objs.map fun o => (viewObj cx w.cells o).rows.map fun r => (r.strand, r.cells.map (·.L)))
         = [[(1, [65, 67, 71]), (1, [71, 71, 84])], [(-1, [71, 67, 65, 84])]]) ∧
     (w0.objs.map (viewObj cx w0.cells)) = (w.objs.take 1).map (viewObj cx w.cells) := by decide
+
+/-! ### alignment.Row / alignment.QRow: RevComp and Reverse of one row of a column-stored alignment -/
+
+/-- **revcomp_spec (alignment.Row, alignment.QRow).** For a well-formed alignment of `n` rows and
+    `r < n`: after `Row(r).RevComp()` row `r` reads (`At` over the span) as the reverse of what it
+    read with every letter complemented, each quality travelling with its letter; every other
+    row reads exactly as before; only the strand of row `r`'s annotation is negated (every other
+    row annotation, and name and offset of row `r`, are untouched); the alignment's own strand,
+    coordinates and columns are unchanged, and no backing array outside the alignment's columns
+    is written. -/
+theorem row_revcomp_spec_alignment (cx : Ctx) (h : Cells) (a : Aln) (n : Nat) (hw : ColsWF h n a.cols)
+    (r : Nat) (hr : r < n) :
+    (a.rowRevComp cx h r).2.rowLetters (a.rowRevComp cx h r).1 r
+        = (a.rowLetters h r).reverse.map (compQL cx.comp) ∧
+    (∀ r', r' ≠ r → (a.rowRevComp cx h r).2.rowLetters (a.rowRevComp cx h r).1 r' = a.rowLetters h r') ∧
+    (∀ i : Nat, (a.rowRevComp cx h r).2.subs[i]? =
+      if r = i then (a.subs[i]?).map (fun s => { s with strand := -s.strand }) else a.subs[i]?) ∧
+    (a.rowRevComp cx h r).2.strand = a.strand ∧ (a.rowRevComp cx h r).2.start = a.start ∧
+    (a.rowRevComp cx h r).2.«end» = a.«end» ∧ (a.rowRevComp cx h r).2.cols = a.cols ∧
+    ColsWF (a.rowRevComp cx h r).1 n (a.rowRevComp cx h r).2.cols ∧
+    (∀ b, b ∉ a.cols.map (·.arr) → (a.rowRevComp cx h r).1.arr b = h.arr b) := by
+  obtain ⟨s1, s2, s3, s4⟩ := Aln.rowRevComp_spec cx h a n hw r hr
+  refine ⟨s1, s2, ?_, rfl, rfl, rfl, rfl, s3, s4⟩
+  intro i
+  exact getElem?_modify_if a.subs r i _
+
+/-- **Row.Reverse / QRow.Reverse**: row `r` reads reversed (qualities travelling), every other row
+    as before; the strand of row `r`'s annotation becomes `seq.None`. -/
+theorem row_reverse_spec_alignment (h : Cells) (a : Aln) (n : Nat) (hw : ColsWF h n a.cols)
+    (r : Nat) (hr : r < n) :
+    (a.rowReverse h r).2.rowLetters (a.rowReverse h r).1 r = (a.rowLetters h r).reverse ∧
+    (∀ r', r' ≠ r → (a.rowReverse h r).2.rowLetters (a.rowReverse h r).1 r' = a.rowLetters h r') ∧
+    (∀ i : Nat, (a.rowReverse h r).2.subs[i]? =
+      if r = i then (a.subs[i]?).map (fun s => { s with strand := 0 }) else a.subs[i]?) ∧
+    (a.rowReverse h r).2.strand = a.strand ∧ (a.rowReverse h r).2.cols = a.cols ∧
+    ColsWF (a.rowReverse h r).1 n (a.rowReverse h r).2.cols := by
+  obtain ⟨s1, s2, s3, _⟩ := Aln.rowReverse_spec h a n hw r hr
+  refine ⟨s1, s2, ?_, rfl, rfl, s3⟩
+  intro i
+  exact getElem?_modify_if a.subs r i _
+
+/-- **revcomp_involutive / reverse_involutive (alignment.Row, alignment.QRow).** `Row(r).RevComp()`
+    twice restores the letters and qualities of every row, every row annotation (the strand of
+    row `r` included) and the alignment's strand; `Row(r).Reverse()` twice restores the letters
+    and qualities of every row. -/
+theorem row_revcomp_involutive_alignment (cx : Ctx) (h : Cells) (a : Aln) (n : Nat) (hw : ColsWF h n a.cols)
+    (r : Nat) (hr : r < n) (hinv : ∀ c ∈ a.rowLetters h r, cx.comp (cx.comp c.L) = c.L) :
+    let r1 := a.rowRevComp cx h r
+    let r2 := r1.2.rowRevComp cx r1.1 r
+    let v1 := a.rowReverse h r
+    let v2 := v1.2.rowReverse v1.1 r
+    (∀ r', r2.2.rowLetters r2.1 r' = a.rowLetters h r') ∧ r2.2.subs = a.subs ∧ r2.2.strand = a.strand ∧
+    (∀ r', v2.2.rowLetters v2.1 r' = a.rowLetters h r') := by
+  intro r1 r2 v1 v2
+  obtain ⟨a1, a2, a3, _⟩ := Aln.rowRevComp_spec cx h a n hw r hr
+  obtain ⟨b1, b2, _, _⟩ := Aln.rowRevComp_spec cx r1.1 r1.2 n a3 r hr
+  obtain ⟨c1, c2, c3, _⟩ := Aln.rowReverse_spec h a n hw r hr
+  obtain ⟨d1, d2, _, _⟩ := Aln.rowReverse_spec v1.1 v1.2 n c3 r hr
+  refine ⟨?_, ?_, rfl, ?_⟩
+  · intro r'
+    by_cases e : r' = r
+    · subst e; rw [b1, a1]; exact map_comp_twice cx.comp _ hinv
+    · rw [b2 r' e, a2 r' e]
+  · show Aln.modSub (Aln.modSub a.subs r _) r _ = a.subs
+    apply List.ext_getElem?
+    intro i
+    simp only [Aln.modSub]
+    rw [getElem?_modify_if, getElem?_modify_if]
+    by_cases e : r = i
+    · simp only [e, if_true]
+      cases a.subs[i]? with
+      | none => rfl
+      | some s => simp only [Option.map_some, Int.neg_neg]
+    · simp only [e, if_false]
+  · intro r'
+    by_cases e : r' = r
+    · subst e; rw [d1, c1, List.reverse_reverse]
+    · rw [d2 r' e, c2 r' e]
+
+-- non-vacuity: Row(0).RevComp() of the 2 x 3 quality alignment above (identity complement)
+example :
+    let cx : Ctx := { comp := fun l => l, gap := 45, amb := 110,
+                      alpha := ⟨[], 0, fun _ => false, fun _ => -1, 45, 110, false⟩, grow := growExact }
+    let w := runOps cx (initWorld cx "qaln" 1 [⟨true, 0, 1, 0, [⟨65, 30⟩, ⟨67, 31⟩, ⟨71, 32⟩]⟩,
+                                                ⟨true, 0, 1, 1, [⟨71, 20⟩, ⟨71, 21⟩, ⟨84, 22⟩]⟩]) [.rowRevComp 0 0]
+    (w.objs.map fun o => (viewObj cx w.cells o).rows.map fun r => (r.strand, r.cells))
+      = [[(-1, [⟨71, 32⟩, ⟨67, 31⟩, ⟨65, 30⟩]), (1, [⟨71, 20⟩, ⟨71, 21⟩, ⟨84, 22⟩])]] := by decide
 
 end Biogo.Properties.C05
